@@ -182,6 +182,8 @@ func basisTerm(s script, calls []string) string {
 		return "(BFork true)"
 	case "fork-stale":
 		return "(BFork false)"
+	case "wallet-behind":
+		return "(BHostBehind true)"
 	}
 	return "BUnknown"
 }
@@ -232,9 +234,20 @@ func (h *harness) project(o *outcome) []string {
 	}
 
 	valid := s.Fault != "req-invalid-params" && s.Fault != "req-bad-challenge" && s.Fault != "req-unknown-contract"
-	env := fmt.Sprintf("(mk_env %s %s true %s None true %s %s %s)",
-		coqBool(s.Fault != "host-not-accepting"), coqBool(valid), basisTerm(s, o.Log.calls),
-		coqBool(observedOK(o.Log.calls, "CPoolParents")), coqBool(observedOK(o.Log.calls, "CTxSet")), coqBool(observedOK(o.Log.calls, "CPoolSet")))
+	// renew / refresh: the contractor follows the chain manager, so the contract element
+	// is rebased exactly when the host's wallet (the funding basis) is behind it
+	elemRebase := "None"
+	for _, c := range o.Log.calls {
+		if strings.HasPrefix(c, "CElemUpdate ") {
+			elemRebase = "(Some " + strings.TrimPrefix(c, "CElemUpdate ") + ")"
+		}
+	}
+	// chain states are named by their height on the host's chain: the host wallet's
+	// tip (funding basis) and the chain manager's tip
+	env := fmt.Sprintf("(mk_env %s %s true %s %s true %s %s %s %d %d)",
+		coqBool(s.Fault != "host-not-accepting"), coqBool(valid), basisTerm(s, o.Log.calls), elemRebase,
+		coqBool(observedOK(o.Log.calls, "CPoolParents")), coqBool(observedOK(o.Log.calls, "CTxSet")), coqBool(observedOK(o.Log.calls, "CPoolSet")),
+		o.HostWalletTip.Height, o.HostCS.Index.Height)
 
 	hdlock := len(confirmedOnly(o.HostBefore)) - len(confirmedOnly(o.HostAfter))
 	rdlock := len(o.RenterBefore) - len(o.RenterAfter)
@@ -280,8 +293,12 @@ func (h *harness) project(o *outcome) []string {
 			}
 		}
 		hostWallet = walletTerm(hostAv, 0, hfundH, true)
-		cases = append(cases, fmt.Sprintf("HostCase %d %s %s %s %s %s %s (%d)%%Z %s",
-			k, env, hostWallet, m1, m2, coqBool(committed), callsTerm(o.Log.calls), hdlock, coqBool(recorded)))
+		rbasis := "None"
+		if o.M.gotR3 != nil {
+			rbasis = fmt.Sprintf("(Some %d)", viewFinal(o.M.gotR3).Basis.Height)
+		}
+		cases = append(cases, fmt.Sprintf("HostCase %d %s %s %s %s %s %s (%d)%%Z %s %s",
+			k, env, hostWallet, m1, m2, coqBool(committed), callsTerm(o.Log.calls), hdlock, coqBool(recorded), rbasis))
 	}
 
 	// ---- renter case ----
@@ -348,8 +365,8 @@ func (h *harness) project(o *outcome) []string {
 		if !idMatch {
 			ct = termsTerm(o.No+5000, 1, rfund, hfund)
 		}
-		rm4 = fmt.Sprintf("(Some (mk_final %d%%nat %s (mk_atxn (mk_contract %s (Sig 1 (MContract %s)) %s None %s) [%s] [%s])))",
-			len(set), coqBool(shape), ct, T, csigT, rsigT, strings.Join(rin, "; "), strings.Join(hin, "; "))
+		rm4 = fmt.Sprintf("(Some (mk_final %d %d%%nat %s (mk_atxn (mk_contract %s (Sig 1 (MContract %s)) %s None %s) [%s] [%s])))",
+			viewFinal(o.M.dlvR3).Basis.Height, len(set), coqBool(shape), ct, T, csigT, rsigT, strings.Join(rin, "; "), strings.Join(hin, "; "))
 	}
 	renterWallet := walletTerm(renterAv, 1000, rfund, false)
 	cases = append(cases, fmt.Sprintf("RenterCase %d %s %s %s %s %s %s %s (%d)%%Z",
